@@ -167,6 +167,84 @@ pub fn run(mut run: Run) -> i32 {
             expect!("orient2d<f32>", osign(<f32 as GeoNum>::Ker::orient2d(Coord { x: pf.0, y: pf.1 }, Coord { x: qf.0, y: qf.1 }, Coord { x: cf.0, y: cf.1 })), ex32);
         }
     });
+    // Inputs built to sit at the edge of the error bound of a semi-static filter in front of the adaptive predicate: a correct filter
+    // (Shewchuk: (3+16u)u * (|detleft|+|detright|)) and the adaptive code agree with exact arithmetic here, a filter with a smaller
+    // constant does not. Construction (pivot r next to the origin, p and q on opposite sides of it on a line of negative slope):
+    //   p = (X+i ulp, -(Y+j' ulp)), q = (-(X+i' ulp), Y+j ulp), r = (tx ulp, ty ulp), X = 1, Y = 1.49, 0 < |tx|,|ty| < 1/2,
+    // so that all four coordinate differences round (by tx, ty of an ulp, in the direction that pushes the two products apart), the
+    // factors have significands (1, 1.49) - the product significand stays just under 1.5 - and the low bits of (i,j), (i',j') drive the
+    // rounding of the two products; (i',j') = (i+a, j-round(aY)+b) keeps the two products within a few ulps of each other.
+    // All (i,j,a,b) of a window x 9 (tx,ty) x 2 magnitudes are enumerated.
+    {
+        let wf: i64 = run.ctx.pick(16, 48);
+        let ts = [0.49f64, 0.47, -0.49];
+        let (na, nb) = (5i64, 9i64); // a in -2..=2, b in -4..=4
+        let n4 = (wf * wf * na * nb) as usize;
+        let ulp = f64::EPSILON; // ulp of values in [1,2)
+        let y0 = 1.49f64;
+        let i0: i64 = 1 << 26;
+        let j0: i64 = 1 << 25;
+        run.stage("semi-static-filter-adversarial", n4 * 9 * 2, |idx, acc| {
+            let (t, rest) = (idx % 18, idx / 18);
+            let (tx, ty, big) = (ts[t % 3], ts[(t / 3) % 3], t / 9 == 1);
+            let k = rest as i64;
+            let (di, dj, a, b) = (k % wf, (k / wf) % wf, (k / (wf * wf)) % na - 2, k / (wf * wf * na) - 4);
+            let sc = if big { 2f64.powi(50) } else { 1.0 };
+            // |px|,|qx| = 1 + i ulp, 1 + (i+a) ulp; |qy|,|py| = Y + j ulp, Y + j' ulp with j' chosen so that the two products differ by about b ulps
+            let (i, j) = (i0 + di * 7 + 1, j0 + dj * 11 + 1);
+            let i2 = i + a;
+            let j2 = j - ((a as f64) * y0).round() as i64 + b;
+            let px = next_up(1.0, i);
+            let qy = next_up(y0, j);
+            let qx = -next_up(1.0, i2);
+            let py = -next_up(y0, j2);
+            let (p, q, r): (F2, F2, F2) = ((px * sc, py * sc), (qx * sc, qy * sc), (tx * ulp * sc, ty * ulp * sc));
+            let ex = bigf::orient(p, q, r);
+            // what plain floating point (pivot r, as in Shewchuk's orient2d) would say, and how far from zero relative to the operands
+            let (dl, dr) = ((p.0 - r.0) * (q.1 - r.1), (p.1 - r.1) * (q.0 - r.0));
+            let det = dl - dr;
+            let nsign = if det > 0.0 { 1 } else if det < 0.0 { -1 } else { 0 };
+            let sum = dl.abs() + dr.abs();
+            if nsign != ex {
+                acc.count("filter-adversarial: naive determinant has the wrong sign", 1);
+                for (c, name) in [(1.0, "1u"), (2.0, "2u"), (2.5, "2.5u"), (2.9, "2.9u")] {
+                    if det.abs() > c * (f64::EPSILON / 2.0) * sum {
+                        acc.count(&format!("filter-adversarial: wrong sign AND |det| > {} * detsum (a filter with that bound would be wrong)", name), 1);
+                    }
+                }
+            }
+            acc.class(format!("filter-adversarial exact{} naive{}", ex, nsign));
+            acc.sample(idx, || json!({"p": [p.0, p.1], "q": [q.0, q.1], "r": [r.0, r.1], "exact_orientation": ex, "naive_det": det}));
+            let wit = |got: i32| json!({"p": [p.0, p.1], "q": [q.0, q.1], "r": [r.0, r.1], "bits": format!("{:016x} {:016x} {:016x} {:016x} {:016x} {:016x}", p.0.to_bits(), p.1.to_bits(), q.0.to_bits(), q.1.to_bits(), r.0.to_bits(), r.1.to_bits()), "expected": ex, "got": got});
+            for (name, a, b, c, sgn) in [("orient2d(p,q,r)", p, q, r, 1), ("orient2d(q,r,p)", q, r, p, 1), ("orient2d(r,p,q)", r, p, q, 1), ("orient2d(q,p,r)", q, p, r, -1)] {
+                acc.evals += 1;
+                let got = osign(<f64 as GeoNum>::Ker::orient2d(co(a), co(b), co(c)));
+                if got != sgn * ex {
+                    acc.viol(format!("{} wrong (expected {}) [semi-static-filter-adversarial]", name, sgn * ex), idx, || wit(got));
+                }
+            }
+            // the ring (p,q,r) in every rotation: winding = exact area sign; r on segment p-q iff exactly collinear and between
+            let ring = [p, q, r];
+            let ex_w = bigf::ring_area_sign(&ring);
+            for rot in 0..3 {
+                let v: Vec<Coord<f64>> = (0..4).map(|t| co(ring[(rot + t) % 3])).collect();
+                acc.evals += 1;
+                let got_w = match LineString::new(v).winding_order() {
+                    Some(WindingOrder::CounterClockwise) => 1,
+                    Some(WindingOrder::Clockwise) => -1,
+                    None => 0,
+                };
+                if got_w != ex_w {
+                    acc.viol("winding_order wrong [semi-static-filter-adversarial]".into(), idx, || wit(got_w));
+                }
+            }
+            acc.evals += 1;
+            let on = Line::new(co(p), co(q)).intersects(&co(r));
+            if on != bigf::on_segment(p, q, r) {
+                acc.viol("Line intersects Coord wrong [semi-static-filter-adversarial]".into(), idx, || wit(on as i32));
+            }
+        });
+    }
     // hull vertex sets on window points (rounding in the farthest-point search)
     let rows = w as usize;
     run.stage("ulp-window-hulls", nb * rows, |idx, acc| {
@@ -259,6 +337,98 @@ pub fn run(mut run: Run) -> i32 {
         if l.intersects(&Coord { x: c.0, y: c.1 }) != on {
             acc.viol("Line<i64> intersects Coord wrong".into(), idx, || json!({"a": format!("{:?}", a), "b": format!("{:?}", b), "c": format!("{:?}", c), "expected": on}));
         }
+    });
+    // integer kernels, near-collinear triples at magnitudes where every product still fits the type but exceeds 2^53 (i64) / 2^24 (i32):
+    // a = o, b = o + (M+i, M+j), c = o + (2M+k, 2M+l), all (i,j,k,l) in 0..8; determinant = M(l-k) + 2M(i-j) + il - jk
+    let offs: [(i64, i64); 2] = [(0, 0), (-(1 << 29), 1 << 28)];
+    run.stage("integer-near-collinear", 4096 * 2, |idx, acc| {
+        let (o, t) = (offs[idx % 2], (idx / 2) as i64);
+        let (i, j, k, l) = (t % 8, (t / 8) % 8, (t / 64) % 8, t / 512);
+        // i64, M = 2^30
+        {
+            let m: i64 = 1 << 30;
+            let (a, b, c) = (o, (o.0 + m + i, o.1 + m + j), (o.0 + 2 * m + k, o.1 + 2 * m + l));
+            let det = (b.0 - a.0) as i128 * (c.1 - a.1) as i128 - (b.1 - a.1) as i128 * (c.0 - a.0) as i128;
+            let ex = det.signum() as i32;
+            acc.evals += 4;
+            acc.class(format!("int-near-collinear i64 sign{} |det|<=3:{}", ex, det.abs() <= 3));
+            acc.sample(idx, || json!({"a": format!("{:?}", a), "b": format!("{:?}", b), "c": format!("{:?}", c), "exact_determinant": det.to_string()}));
+            let (ca, cb, cc) = (Coord { x: a.0, y: a.1 }, Coord { x: b.0, y: b.1 }, Coord { x: c.0, y: c.1 });
+            let wit = |got: String| json!({"a": format!("{:?}", a), "b": format!("{:?}", b), "c": format!("{:?}", c), "exact_determinant": det.to_string(), "got": got});
+            for (name, x, y, z, sg) in [("orient2d<i64>(a,b,c)", ca, cb, cc, 1), ("orient2d<i64>(b,c,a)", cb, cc, ca, 1), ("orient2d<i64>(c,b,a)", cc, cb, ca, -1)] {
+                let got = osign(<i64 as GeoNum>::Ker::orient2d(x, y, z));
+                if got != sg * ex {
+                    acc.viol(format!("{} wrong on a near-collinear triple whose products fit i64", name), idx, || wit(got.to_string()));
+                }
+            }
+            // c on segment a-c' style query: b against the segment a-c (b is between them when collinear)
+            let on = Line::new(ca, cc).intersects(&cb);
+            if on != (ex == 0) {
+                acc.viol("Line<i64> intersects Coord wrong on a near-collinear triple".into(), idx, || wit(on.to_string()));
+            }
+            let w = match LineString::new(vec![ca, cb, cc, ca]).winding_order() {
+                Some(WindingOrder::CounterClockwise) => 1,
+                Some(WindingOrder::Clockwise) => -1,
+                None => 0,
+            };
+            if w != ex {
+                acc.viol("winding_order<i64> wrong on a near-collinear triangle".into(), idx, || wit(w.to_string()));
+            }
+        }
+        // i32, M = 2^13 (products < 2^29)
+        {
+            let m: i32 = 1 << 13;
+            let o3 = ((o.0 >> 18) as i32, (o.1 >> 18) as i32);
+            let (i, j, k, l) = (i as i32, j as i32, k as i32, l as i32);
+            let (a, b, c) = (o3, (o3.0 + m + i, o3.1 + m + j), (o3.0 + 2 * m + k, o3.1 + 2 * m + l));
+            let det = (b.0 - a.0) as i64 * (c.1 - a.1) as i64 - (b.1 - a.1) as i64 * (c.0 - a.0) as i64;
+            let ex = det.signum() as i32;
+            acc.evals += 1;
+            let got = osign(<i32 as GeoNum>::Ker::orient2d(Coord { x: a.0, y: a.1 }, Coord { x: b.0, y: b.1 }, Coord { x: c.0, y: c.1 }));
+            if got != ex {
+                acc.viol("orient2d<i32> wrong on a near-collinear triple whose products fit i32".into(), idx, || json!({"a": format!("{:?}", a), "b": format!("{:?}", b), "c": format!("{:?}", c), "exact_determinant": det, "got": got}));
+            }
+        }
+    });
+    // point-in-triangle for every vertex order: all non-degenerate lattice triangles of the 4x4 lattice (every ordered triple = all 6 orders) x every
+    // query point of the lattice extended by one step, f64 and i64: contains / intersects / coordinate_position against exact orientation signs
+    let g4: Vec<(i64, i64)> = (0..4).flat_map(|x| (0..4).map(move |y| (x, y))).collect();
+    let q6: Vec<(i64, i64)> = (-1..5).flat_map(|x| (-1..5).map(move |y| (x, y))).collect();
+    let (n4, nq) = (g4.len(), q6.len());
+    run.stage("triangle-vertex-orders", n4 * n4 * n4 * nq, |idx, acc| {
+        let (t, d) = (idx / nq, q6[idx % nq]);
+        let (a, b, c) = (g4[t / (n4 * n4)], g4[(t / n4) % n4], g4[t % n4]);
+        let o = |p: (i64, i64), q: (i64, i64), r: (i64, i64)| ((q.0 - p.0) * (r.1 - p.1) - (q.1 - p.1) * (r.0 - p.0)).signum();
+        let s = o(a, b, c);
+        if s == 0 {
+            return;
+        }
+        let e = [o(a, b, d) * s, o(b, c, d) * s, o(c, a, d) * s];
+        let ex_pos = if e.iter().any(|&x| x < 0) { 0 } else if e.iter().any(|&x| x == 0) { 1 } else { 2 };
+        acc.class(format!("triangle-order pos{} zeros{} cw{}", ex_pos, e.iter().filter(|&&x| x == 0).count(), s < 0));
+        let cf = |p: (i64, i64)| Coord { x: p.0 as f64, y: p.1 as f64 };
+        let ci = |p: (i64, i64)| Coord { x: p.0, y: p.1 };
+        let tf = Triangle(cf(a), cf(b), cf(c));
+        let ti = Triangle(ci(a), ci(b), ci(c));
+        let wit = |what: &str, got: String| json!({"triangle": format!("{:?} {:?} {:?}", a, b, c), "query": format!("{:?}", d), "what": what, "expected_position(0 out,1 boundary,2 in)": ex_pos, "got": got});
+        macro_rules! chk {
+            ($name:expr, $got:expr, $exp:expr) => {{
+                acc.evals += 1;
+                let (g, x) = ($got, $exp);
+                if g != x {
+                    acc.viol(format!("{} wrong for some vertex order of a lattice triangle", $name), idx, || wit($name, format!("{:?}", g)));
+                }
+            }};
+        }
+        chk!("Triangle<f64> intersects Coord", tf.intersects(&cf(d)), ex_pos != 0);
+        chk!("Coord intersects Triangle<f64>", cf(d).intersects(&tf), ex_pos != 0);
+        chk!("Triangle<f64> contains Coord", tf.contains(&cf(d)), ex_pos == 2);
+        chk!("Triangle<f64>::coordinate_position", pos3(tf.coordinate_position(&cf(d))), ex_pos);
+        chk!("Triangle<i64> intersects Coord", ti.intersects(&ci(d)), ex_pos != 0);
+        chk!("Triangle<i64> contains Coord", ti.contains(&ci(d)), ex_pos == 2);
+        chk!("Triangle<i64>::coordinate_position", pos3(ti.coordinate_position(&ci(d))), ex_pos);
+        chk!("Triangle<f64> as Polygon intersects Coord", tf.to_polygon().intersects(&cf(d)), ex_pos != 0);
+        chk!("Triangle<f64> as Polygon coordinate_position", pos3(tf.to_polygon().coordinate_position(&cf(d))), ex_pos);
     });
     let nw = run.acc.counters.get("naive_formula_wrong").cloned().unwrap_or(0);
     run.distinct_override = Some(nw);
